@@ -67,7 +67,8 @@ def gen_cases(rng, tier):
         nfw, nli, T = rng.randint(2, 5), rng.randint(1, 3), rng.randint(4, 12)
         edge = lambda: rng.choice([0.0, 1.0 - rng.randint(1, 9) * 1e-6, rng.randint(1, 9) * 1e-6, 1.0 - rng.randint(1, 9) * 1e-7, rng.random()])
         fw = [[edge() for _k in range(3)] for _a in range(nfw)]
-        vel = [rng.choice([-1, 1]) * rng.uniform(0.3e-6, 2e-6) for _k in range(3)]
+        vmax = rng.choice([2e-6, 2e-6, 8e-9])            # also drifts far below any 'is it zero' tolerance per frame: they still add up
+        vel = [rng.choice([-1, 1]) * rng.uniform(0.15 * vmax, vmax) for _k in range(3)]
         li = [[rng.random() for _k in range(3)] for _a in range(nli)]
         coords = []
         for t in range(T):
@@ -186,7 +187,7 @@ def oracle(case, out):
         if 'rigid' not in out:
             return [('c13/harness-error', f"{out.get('error')}: {out.get('msg')} {out.get('tb', '')[-400:]}")]
         for tag in ('asis', 'moved'):
-            if not out['resid_' + tag] <= 1e-9:
+            if not out['resid_' + tag] <= 1e-12:
                 fs.append(('drift/reference-atoms-move', f'atoms of a rigid framework near the cell faces move by {out["resid_" + tag]} of a cell after the correction ({tag})'))
             if not out['first_' + tag] <= 1e-9:
                 fs.append(('drift/first-frame-changed', f'the first frame changed by {out["first_" + tag]} ({tag})'))
